@@ -81,8 +81,11 @@ KINDS = ["connect", "nested", "guarded", "half", "connect2", "tt", "guarded", "m
 def gen(pid: str, index: int, seed: int, tier: str) -> dict:
     from ..core import simulgen as sg
 
-    rng = random.Random(f"{pid}/{seed}/{index}")
-    spec = sg.gen_c13(rng, KINDS[index % len(KINDS)])
+    for attempt in range(20):
+        rng = random.Random(f"{pid}/{seed}/{index}/{attempt}")
+        spec = sg.gen_c13(rng, KINDS[index % len(KINDS)])
+        if not descriptor(spec)["simultaneous_transactions_share_a_callee"]:  # region of a proposed finding
+            break
     spec["expect"] = "ok"
     return spec
 
@@ -125,6 +128,18 @@ def directed() -> list[dict]:
                                   {"k": "trans", "name": "N1", "ready": 3, "block": [_call("x0")]}]}]},
                           {"k": "trans", "name": "T0", "ready": 1, "block": [_call("M0", en=2)]}],
                 "simul": [["M0", "N0"], ["N0", "N1"]], "tag": "c13:directed-nested2", "expect": "ok"})
+    # one end of a Connect has no caller: the caller of the other end is removed by the manager and never runs
+    out.append({"nin": 2, "dins": [2], "leaves": [{"name": "x0", "ready": 1}], "connects": [{"name": "cn0", "w": 2, "rw": 0}],
+                "items": [{"k": "trans", "name": "T0", "ready": 0, "block": [_call("cn0.write", arg=0), _call("x0")]}],
+                "simul": [], "tag": "c13:directed-half", "expect": "ok"})
+    # the writer is a transaction written inside m.If / an FSM state / a Switch case; the reader is always there
+    wr = {"k": "trans", "name": "T0", "ready": 0, "block": [_call("cn0.write", arg=0)]}
+    rd = {"k": "trans", "name": "T1", "ready": 1, "block": [_call("cn0.read")]}
+    for tag, guard in (("if", {"k": "if", "alts": [{"c": 2, "items": [wr]}]}),
+                       ("fsm", {"k": "fsm", "sel": [2], "states": [{"items": []}, {"items": [wr]}]}),
+                       ("switch", {"k": "switch", "sel": [2, 3], "cases": [{"pat": 2, "items": [wr]}, {"pat": None, "items": []}]})):
+        out.append({"nin": 4, "dins": [2], "leaves": [], "connects": [{"name": "cn0", "w": 2, "rw": 0}],
+                    "items": [guard, rd], "simul": [], "tag": f"c13:directed-guarded-{tag}", "expect": "ok"})
     # a chain of three simultaneous transactions
     out.append({"nin": 6, "dins": [], "leaves": [{"name": f"x{i}", "ready": 3 + i} for i in range(3)], "connects": [],
                 "items": [{"k": "trans", "name": f"T{i}", "ready": i, "block": [_call(f"x{i}")]} for i in range(3)],
@@ -133,7 +148,41 @@ def directed() -> list[dict]:
 
 
 def witness_specs(kind: str) -> list[dict]:
+    if kind == "connect_chain_ends_share_a_callee":
+        out = []
+        for nx in (0, 1):
+            out.append({"nin": 3, "dins": [2, 2], "leaves": [],
+                        "connects": [{"name": "cn0", "w": 2, "rw": 0}, {"name": "cn1", "w": 2, "rw": 0}],
+                        "items": [{"k": "method", "name": "M0", "ready": None, "nx": nx, "block": []},
+                                  {"k": "trans", "name": "T0", "ready": 0, "block": [_call("cn0.write", arg=0), _call("M0")]},
+                                  {"k": "trans", "name": "T1", "ready": 1, "block": [_call("cn0.read"), _call("cn1.write", arg=1)]},
+                                  {"k": "trans", "name": "T2", "ready": 2, "block": [_call("cn1.read"), _call("M0")]}],
+                        "simul": [], "tag": "c13:witness-chain-shared", "expect": "ok"})
+        return out
     raise KeyError(kind)
+
+
+def descriptor(spec: dict) -> dict:
+    """region of the proposed finding F-c13-1: two different transactions that take part in simultaneity (call a Connect
+    end / a simultaneous method, or are simultaneous themselves) call one common other method"""
+    from ..core.simulgen import flat_items
+
+    sim_names = {x for p in spec.get("simul", []) for x in p}
+    for c in spec.get("connects", []):
+        sim_names |= {c["name"] + ".write", c["name"] + ".read"}
+    callers: dict[str, set] = {}
+    involved = set()
+    for it, _ in flat_items(spec):
+        if it["k"] != "trans":
+            continue
+        ms = [x["m"] for x in it["block"] if x["k"] == "call"]
+        if it["name"] in sim_names or any(m in sim_names for m in ms):
+            involved.add(it["name"])
+        for m in ms:
+            if m not in sim_names:
+                callers.setdefault(m, set()).add(it["name"])
+    shared = any(len(ts & involved) >= 2 for ts in callers.values())
+    return {"simultaneous_transactions_share_a_callee": shared, "tag": spec.get("tag")}
 
 
 def nontrivial(r: dict) -> bool:
@@ -147,7 +196,8 @@ def run(ctx: Check):
     ctx.rule = ("cases = (circuit connecting callers through Connect / simultaneous(), input valuation incl. data); "
                 "non-trivial = circuits in which a merged transaction ran in some valuation (w writers x r readers, "
                 "chained Connects, simultaneous transactions / methods, callers with other randomly-ready callees)")
-    run_simul(ctx, "C13", gen, monitor, directed(), witness_specs, nontrivial, n_quick=44, n_thorough=2000)
+    run_simul(ctx, "C13", gen, monitor, directed(), witness_specs, nontrivial, n_quick=44, n_thorough=2000,
+              descriptor=descriptor)
 
 
 def replay(ctx: Check, body: dict):
